@@ -78,6 +78,9 @@ static void fini8(void *p) { el_fini(p, 8); }
 static const MPT_STRUCT(type_traits) tr_m4 = { init4, fini4, 4 };
 static const MPT_STRUCT(type_traits) tr_m8 = { init8, fini8, 8 };
 static const MPT_STRUCT(type_traits) tr_n4 = { init4, fini4, 4 };
+/* destructor only (as the element type of reference_array<T>): such buffers are created with BufferNoCopy, the
+ * owner constructs the elements in place */
+static const MPT_STRUCT(type_traits) tr_f8 = { 0, fini8, 8 };
 #endif
 
 #ifdef DRV_ELEM
@@ -113,6 +116,7 @@ static const MPT_STRUCT(type_traits) *traits_by_name(const char *s, int *ok)
 	if (!strcmp(s, "m4")) return &tr_m4;
 	if (!strcmp(s, "m8")) return &tr_m8;
 	if (!strcmp(s, "n4")) return &tr_n4;
+	if (!strcmp(s, "f8")) return &tr_f8;
 #endif
 	*ok = 0;
 	return 0;
@@ -129,6 +133,7 @@ static const char *traits_name(const MPT_STRUCT(type_traits) *t)
 	if (t == &tr_m4) return "m4";
 	if (t == &tr_m8) return "m8";
 	if (t == &tr_n4) return "n4";
+	if (t == &tr_f8) return "f8";
 #endif
 	return "?";
 }
@@ -375,6 +380,16 @@ int main(void)
 #endif
 		if (drv_nw < 3 || (h = handle_arg(drv_w[2])) < 0) BAD;
 		MPT_STRUCT(array) *arr = &H[h]._a;
+#ifdef DRV_ELEM
+		/* BufferNoCopy is a promise about the content: it has to survive every re-allocation the library does on
+		 * behalf of a modification, and such content is never duplicated while it is shared */
+		const MPT_STRUCT(buffer) *pre = arr->_buf;
+		unsigned pre_flags = pre ? pre->_vptr->get_flags(pre) : 0;
+		size_t pre_used = pre ? pre->_used : 0;
+		int pre_shared = pre ? ref_of(pre) > 1 : 0;
+		int realloc_op = !strcmp(op, "insert") || !strcmp(op, "set") || !strcmp(op, "slice") || !strcmp(op, "detach")
+			|| !strcmp(op, "cut") || !strcmp(op, "bset") || !strcmp(op, "reduce") || !strcmp(op, "append");
+#endif
 		/* a slice handle only accepts swrite and drop */
 		if (wmode[h] && strcmp(op, "swrite") && strcmp(op, "drop")) BAD;
 
@@ -408,10 +423,10 @@ int main(void)
 			void *p = mpt_array_insert(arr, a, dlen);
 #ifdef DRV_ELEM
 			const MPT_STRUCT(type_traits) *bt = arr->_buf ? arr->_buf->_content_traits : 0;
-			if (p && bt && bt->init && bt->size) {
+			if (p && bt && (bt->init || bt->fini) && bt->size) {
 				/* the caller constructs the inserted elements (as config_item_reserve does) */
 				oracle_off = 1;
-				for (size_t i = 0; i + bt->size <= dlen; i += bt->size) bt->init((uint8_t *) p + i, 0);
+				for (size_t i = 0; i + bt->size <= dlen; i += bt->size) el_init((uint8_t *) p + i, 0, bt->size);
 				oracle_off = 0;
 			} else
 #endif
@@ -480,6 +495,20 @@ int main(void)
 				result_int(mpt_buffer_cut(r, a, b), "-");
 			}
 		}
+#ifndef DRV_ELEM
+		else if (!strcmp(op, "binsert") && drv_nw == 5) {
+			/* private copy of the current size, then mpt_buffer_insert and the caller's copy */
+			if (opnd(drv_w[3], h, &a) || data_arg(drv_w[4], h, &dat, &dlen, &isnull)) BAD;
+			MPT_STRUCT(buffer) *r = arr->_buf ? arr->_buf->_vptr->detach(arr->_buf, arr->_buf->_used) : 0;
+			if (!r) result("refused", "-", "null", 0);
+			else {
+				arr->_buf = r;
+				void *p = mpt_buffer_insert(r, a, dlen);
+				if (p && dlen) memcpy(p, dat, dlen);
+				result_ptr(p, h, "-");
+			}
+		}
+#endif
 		else if (!strcmp(op, "bset") && drv_nw == 5) {
 #ifdef DRV_ELEM
 			uint8_t *src = 0;
@@ -535,6 +564,12 @@ int main(void)
 		else BAD;
 		goto done;
 done:
+#ifdef DRV_ELEM
+		if (realloc_op && pre && arr->_buf && arr->_buf != pre && (pre_flags & MPT_ENUM(BufferNoCopy))) {
+			if (!(arr->_buf->_vptr->get_flags(arr->_buf) & MPT_ENUM(BufferNoCopy))) mark_illegal("nocopy-lost", 0);
+			if (pre_shared && pre_used) mark_illegal("nocopy-copied", 0);
+		}
+#endif
 		free(dat); dat = 0;
 next:
 		if (r_have) { r_have = 0; put_state(r_verdict, r_detail, r_ret, r_final); }
